@@ -171,9 +171,23 @@ def content_doc(rng):
         pl = rng.choice(["", "", ' isPermaLink="true"', ' isPermaLink="false"', ' isPermaLink="TRUE"', ' ispermalink="false"'])
         return "<%s%s>%s</%s>" % (name, pl, rng.choice([ref, " urn:uuid:1234 ", "tag:example.org,2004:1", ""]), name)
 
+    def ce(atom):
+        """stage 5: categories (text and / or term, scheme | domain, label attributes; duplicates; empty), dc:subject, keywords, enclosures"""
+        r = rng.random()
+        if r < 0.25:
+            attrs = "".join(' %s="%s"' % (an, rng.choice(["u.mp3", "http://example.org/e.ogg", "rel/x", "", "12", "audio/mpeg"])) for an in rng.sample(["url", "href", "uri", "length", "type", "rel"], rng.randint(1, 4)))
+            return "<enclosure%s/>" % attrs if rng.random() < 0.8 else "<enclosure%s>text</enclosure>" % attrs
+        name = rng.choice(["category", "category", "dc:subject", "keywords"])
+        attrs = ""
+        for an in rng.sample(["term", "scheme", "domain", "label"], rng.choice([0, 0, 1, 2, 3])):
+            attrs += ' %s="%s"' % (an, rng.choice(["News", "", "http://example.org/cats", "Tech &amp; Co", "d"]))
+        return "<%s%s>%s</%s>" % (name, attrs, rng.choice(["News", "News", " Tech ", "", "  ", "a, b", "Tom &amp; Jerry", "x<!-- c -->y"]), name)
+
     def el(name, atom):
         if name == "@lg":
             return lg(atom)
+        if name == "@ce":
+            return ce(atom)
         t = rng.choice(TEXTS2)
         attrs = ""
         r = rng.random()
@@ -197,8 +211,8 @@ def content_doc(rng):
     # stage 3: summary / description / content in every order (a second description becomes content; content before description; content:encoded)
     entry_names = (["title", "rights", "dc:rights", "dc:title", "itunes:subtitle", "x:other", "summary", "content", "summary", "itunes:summary", "content", "media:description", "abstract"] if atom else
                    ["title", "dc:rights", "dc:title", "itunes:subtitle", "copyright", "x:other", "description", "cenc:encoded", "description", "itunes:summary", "fullitem", "dc:description", "content", "abstract"])
-    feed_names = feed_names + ["@lg", "@lg"]
-    entry_names = entry_names + ["@lg", "@lg", "@lg", "@lg"]
+    feed_names = feed_names + ["@lg", "@lg", "@ce"]
+    entry_names = entry_names + ["@lg", "@lg", "@lg", "@lg", "@ce", "@ce", "@ce", "@ce"]
     fmeta = "".join(el(n, atom) for n in rng.sample(feed_names, rng.randint(1, 4)))
     entries = ""
     for i in range(rng.randint(0, 3)):
